@@ -5,6 +5,7 @@
    [gen]; what is assumed about it is written in each statement (H_order, H_nodup / HL_layers). *)
 From Coq Require Import String List Arith Bool ZArith Permutation Lia.
 From Tangelo Require Import Linq.GateModel Chem.Ansatz Chem.AnsatzProofs Chem.AnsatzRun.
+From Gen Require Import AnsatzFacts.
 Import ListNotations.
 Open Scope nat_scope.
 
@@ -122,11 +123,12 @@ Proof.
 Qed.
 Print Assumptions C07_vsqs_zero_param_refuted.
 
-(* 5c. the repaired update_var_params (size test + offset n_ref = len(variational gates) - n_var_gates*(intervals-1)):
+(* 5c. [build as it was before fix ad5ab8e: negligible terms dropped, hence the hypothesis no_drop]
+       the repaired update_var_params (size test + offset n_ref = len(variational gates) - n_var_gates*(intervals-1)):
        for ANY variational gates `pre` of a user-supplied reference circuit, all interval counts, both Trotter
        orders, optional navigator: a vector of the advertised length writes exactly the VSQS segment, any other
        length is rejected — given that build_circuit emitted all gates (no_drop) *)
-Theorem C07_vsqs_offsets_any_reference :
+Theorem C07_vsqs_offsets_any_reference_dropping_build :
   forall (T C V : Type) (gu : T -> C -> V) (gb : T -> C -> option V) (c : vsqs_cfg C) (pre : list V) th0 th d,
     no_drop T C V gb c th0 d ->
     (length th = vsqs_n_var_params C c ->
@@ -135,7 +137,7 @@ Theorem C07_vsqs_offsets_any_reference :
     /\ (length th <> vsqs_n_var_params C c ->
        vsqs_update_fixed T C V gu c (pre ++ vsqs_build T C V gb c th0 d)%list th = Err ValueError).
 Proof. exact vsqs_offsets_any_reference. Qed.
-Print Assumptions C07_vsqs_offsets_any_reference.
+Print Assumptions C07_vsqs_offsets_any_reference_dropping_build.
 
 (* 5d. no_drop is still needed on the repaired code: after a build with a zero parameter n_ref is negative, the
        writes wrap around (Python negative indices): no exception any more, but a 1-gate circuit where a fresh
@@ -276,3 +278,28 @@ Example C07_example_history :
   /\ no_drop nat nat nat vz_gb (VCfg nat [1; 3] [2] (Some [5]) true 2) [1; 2; 3; 4; 5; 6] 0
   /\ run_puccd 2 2 [10; 20; 30; 40]%Z = "exc=0-2,0-3,1-2,1-3|tab=0-2:0,1-3:1,0-3:2,1-2:3|vg=10,40,20,30"%string.
 Proof. vm_compute. repeat split; repeat constructor; discriminate. Qed.
+
+(* ================================================================================================ *)
+(* 12. VSQS over the facts regenerated from vsqs.py in this run (Gen.AnsatzFacts: does build_circuit drop negligible
+       terms? does update_var_params test the size? are the offsets counted from n_ref?).  For the code as it is now
+       (false, true, true) the FULL statement holds with NO hypothesis on the parameter values (exact zeros and tiny
+       values included): for any variational gates `pre` of the reference circuit, any build parameters th0, every
+       interval count, both Trotter orders, optional navigator:
+         - an update of the advertised length leaves pre ++ <layout of th>; any other length is rejected;
+         - a fresh build with th fills the same slots with R-related values (R: equal modulo 4*pi).
+       If a defect returns (facts change) this obligation no longer type-checks.  Kept last in the file so that every
+       other theorem is still checked in that case. *)
+Theorem C07_vsqs_offsets_any_reference :
+  forall (T C V : Type) (gu : T -> C -> V) (gb : T -> C -> option V) (R : V -> V -> Prop) (gbv : T -> C -> V),
+    (forall t c, R (gbv t c) (gu t c)) ->
+    forall (c : vsqs_cfg C) (pre : list V) (th0 th : list T) (d : T),
+      (length th = vsqs_n_var_params C c ->
+         vsqs_update_src T C V gu vsqs_update_size_test vsqs_update_offsets_ref c
+                         (pre ++ vsqs_build_src T C V gb gbv vsqs_build_drops c th0 d)%list th
+         = Ok (pre ++ vsqs_layout T C c gu th d)%list)
+      /\ (length th <> vsqs_n_var_params C c ->
+         vsqs_update_src T C V gu vsqs_update_size_test vsqs_update_offsets_ref c
+                         (pre ++ vsqs_build_src T C V gb gbv vsqs_build_drops c th0 d)%list th = Err ValueError)
+      /\ Forall2 R (vsqs_build_src T C V gb gbv vsqs_build_drops c th d) (vsqs_layout T C c gu th d).
+Proof. exact vsqs_src_full. Qed.
+Print Assumptions C07_vsqs_offsets_any_reference.
